@@ -1,5 +1,6 @@
 import jax.numpy as jnp
 from jax import Array
+from jax.lax import optimization_barrier
 from jax.ops import segment_max
 
 # ======================================================================================
@@ -41,6 +42,15 @@ def argmax(
         axis = tuple(range(a.ndim))
     elif isinstance(axis, int):
         axis = (axis,)
+
+    # Make sure that a is evaluated only once
+    # ----------------------------------------------------------------------------------
+    # Note: If a is the result of a computation inside the same jitted function, XLA may
+    # fuse that computation separately into the maximum and into the comparison with the
+    # maximum below. The two evaluations can differ in the last bit, in which case no
+    # element compares equal to the maximum and index 0 would be returned.
+    # ==================================================================================
+    a = optimization_barrier(a)
 
     # Move axis over which to compute the argmax to the back and flatten last dims
     # ==================================================================================
